@@ -750,6 +750,61 @@ func c10(x *mon.Ctx) {
 			x.Note(c.Class, c.Param, out.Accepted, out.Panic != "", out.Panic == "")
 		}
 	}
+	// 3d. ONE options value: a good quote, a hostile one, the good one again, the hostile one again — for hostile quotes of every
+	//     kind in this workload (odd certificates in the chain slots, garbage DER, a leaf without SGX extension, hostile
+	//     collateral, truncated and mutated bytes): no call crashes, whatever the call before left behind
+	{
+		goodC := w.Case(world.LCrl, "good-hostile-good-hostile", "good")
+		var hostile []*world.Case
+		for name, pm := range odd {
+			for pos := 0; pos < 3; pos++ {
+				ch := []*world.Cert{w.PKI.Leaf, w.PKI.Inter, w.PKI.Root}
+				ch[pos] = &world.Cert{PEM: pm}
+				w2 := w.Clone()
+				w2.Q.Chain = world.ChainPEM(false, ch...)
+				hostile = append(hostile, w2.Case(world.LCrl, "good-hostile-good-hostile", fmt.Sprintf("chain-%s@%d", name, pos)))
+			}
+		}
+		{
+			w2 := w.Clone()
+			w2.Q.Chain = world.ChainPEM(false, world.Issue(world.LeafTemplate(world.Far, nil), w.PKI.Inter, w.PKI.Leaf.Key), w.PKI.Inter, w.PKI.Root)
+			hostile = append(hostile, w2.Case(world.LCrl, "good-hostile-good-hostile", "leaf-without-sgx-extension"))
+			w3 := w.Clone()
+			w3.Q.Chain = world.ChainPEM(false, world.Issue(world.LeafTemplate(world.Far, []byte{0x30, 0x03, 1, 2, 3}), w.PKI.Inter, w.PKI.Leaf.Key), w.PKI.Inter, w.PKI.Root)
+			hostile = append(hostile, w3.Case(world.LCrl, "good-hostile-good-hostile", "leaf-with-garbage-sgx-extension"))
+			w4 := w.Clone()
+			w4.Q.Chain = world.ChainPEM(false, w.PKI.Leaf, w.PKI.Inter)
+			hostile = append(hostile, w4.Case(world.LCrl, "good-hostile-good-hostile", "two-certificates"))
+		}
+		for i := 0; i < len(rcases); i += x.Pick(23, 3) {
+			c := rcases[i].Clone()
+			c.Param = rcases[i].Class + "/" + rcases[i].Param
+			hostile = append(hostile, c)
+		}
+		x.Each(len(hostile), func(i int) {
+			h := hostile[i]
+			sh := &verify.Options{}
+			var first mon.Outcome
+			for step, c := range []*world.Case{goodC, h, goodC, h, h, goodC} {
+				x.Crumb(i, "verify", c)
+				out := mon.RunVerifyShared(c, sh)
+				if step == 0 {
+					first = out
+				}
+				switch {
+				case out.Panic != "":
+					x.Violation("good-hostile-good-hostile", h.Param, fmt.Sprintf("one options value, history good / hostile / good / hostile / hostile / good: call %d panics: %s\n%s", step+1, out.Panic, out.Stack), "verify", c)
+				case c == goodC && out.Accepted != first.Accepted:
+					x.Violation("good-hostile-good-hostile", h.Param, fmt.Sprintf("the good quote was accepted=%v in call 1 and is accepted=%v (%s) in call %d, after the hostile one", first.Accepted, out.Accepted, out.Err, step+1), "verify", c)
+				}
+				if out.Panic != "" {
+					break
+				}
+			}
+			x.Note("good-hostile-good-hostile", h.Param, false, false, true)
+		})
+		x.Require("good-hostile-good-hostile", 0, 0, len(hostile))
+	}
 	// odd certificates in the quote's own chain slots
 	for name, pem := range odd {
 		oc := &world.Cert{PEM: pem}
